@@ -86,6 +86,9 @@ def run_cases(cases, variant="plain", binary=None, cpu_s=None, as_bytes=None,
     deadline = time.time() + wall_s
     e = dict(os.environ)
     e.setdefault("RUST_BACKTRACE", "0")
+    # DbError captures a backtrace per error when RUST_BACKTRACE is set (2-8 ms .. seconds of CPU per error under load);
+    # panic and allocation-failure backtraces (used for attribution) are governed by RUST_BACKTRACE and stay on
+    e["RUST_LIB_BACKTRACE"] = "0"
     if stack_mb:
         e["VDRIVE_STACK_MB"] = str(stack_mb)
     if env:
